@@ -36,6 +36,11 @@ pub fn obs_full(rt: &CoreRuntime, o: &mut Value) {
     buf.extend_from_slice(&ext[0xB8000..0xB8200]);
     buf.extend_from_slice(&ext[0xB8F00..0xBA010]);
     o["ram_crc"] = json!(crc32(&buf));
+    o["rom_crc"] = json!(crc32(&ext[0xC0000..0xC0400]));
+    let mut win: Vec<u8> = Vec::new();
+    win.extend_from_slice(&ext[0x2000..0x2010]);
+    win.extend_from_slice(&ext[0xA000..0xA010]);
+    o["lcdwin_crc"] = json!(crc32(&win));
     o["call_depth"] = json!(rt.state.call_depth());
     o["call_sub_level"] = json!(rt.state.call_sub_level());
     if let Some(kb) = rt.keyboard.as_ref() {
